@@ -36,6 +36,7 @@ type Solver struct {
 	Time      time.Duration
 	LastErr   string
 	Log       io.Writer
+	clean     bool
 }
 
 func NewSolver(kind string, timeoutMs int) (*Solver, error) {
@@ -108,8 +109,13 @@ func (s *Solver) send(cmds string) []string {
 	return lines
 }
 
-// Reset clears all assertions and definitions.
+// Reset clears all assertions and definitions. It is lazy: a solver that received nothing
+// since the last reset is left alone.
 func (s *Solver) Reset() {
+	if s.clean {
+		return
+	}
+	s.clean = true
 	s.pr = NewPrinter()
 	var sb strings.Builder
 	sb.WriteString("(reset)\n")
@@ -136,6 +142,7 @@ func (s *Solver) Assert(t *Term) {
 	if t.IsTrue() {
 		return
 	}
+	s.clean = false
 	var sb strings.Builder
 	n := s.pr.Define(&sb, t)
 	fmt.Fprintf(&sb, "(assert %s)\n", n)
@@ -151,6 +158,7 @@ func (s *Solver) Assert(t *Term) {
 // returned.
 func (s *Solver) Check(extra *Term, model bool) (Result, map[string]uint64) {
 	s.Queries++
+	s.clean = false
 	var sb strings.Builder
 	var n string
 	if extra != nil {
